@@ -11,6 +11,12 @@ DRIVER = "props/C11/driver.ml"
 PROGS = {"c11unit": ["props/C11/unit.cpp"], "vsim": ["harness/vsim_main.cpp"]}
 
 
+# C11_VARIANT=cov builds the library and the harness programs with gcov instrumentation (coverage of the anchored
+# functions under the generated cases: props/C11/NOTES.md, round 4)
+V.CXX_VARIANTS.setdefault("cov", ["-O0", "-g", "--coverage"])
+VARIANT = os.environ.get("C11_VARIANT", "plain")
+
+
 def setup():
     V.extract_model("C11", EXTRACT, DRIVER, [])
     for n, s in PROGS.items():
@@ -37,7 +43,7 @@ def check(run):
         "text-reader model: words are white-space separated, braces are words of their own, closing braces end their line; "
         "type-specific state readers consume brace-balanced pieces (hypothesis data_wellformed, proved for the three modelled readers)",
     ]
-    st = V.standard_start(run, PROP, EXTRACT, DRIVER, PROGS, extra_ml=())
+    st = V.standard_start(run, PROP, EXTRACT, DRIVER, PROGS, variant=VARIANT, extra_ml=())
     if st is None:
         return
     model, exes = st
